@@ -31,6 +31,9 @@ func main() {
 		after    = flag.String("after", "", "")
 		replay   = flag.String("replay", "", "")
 		region   = flag.String("region", "", "")
+		until    = flag.String("until", "", "")
+		aux      = flag.String("aux", "", "internal: auxiliary task of a property")
+		auxargs  = flag.String("auxargs", "", "")
 		rfile    = flag.String("replayfile", "", "replay a recorded violation")
 		root     = flag.String("root", "/verif", "")
 		workers  = flag.Int("workers", 0, "")
@@ -44,13 +47,22 @@ func main() {
 		}
 		return
 	}
+	if *aux != "" {
+		p := explore.Lookup(*aux)
+		if p == nil || p.Aux == nil {
+			fmt.Println("no aux task for", *aux)
+			os.Exit(2)
+		}
+		p.Aux(*auxargs)
+		return
+	}
 	if *worker {
 		if pf := os.Getenv("VERIF_PROF"); pf != "" {
 			f, _ := os.Create(pf)
 			pprof.StartCPUProfile(f)
 			defer pprof.StopCPUProfile()
 		}
-		explore.WorkerMain(*prop, *tier, *idx, *n, *seed, *deadline, *after, *replay, *region)
+		explore.WorkerMain(*prop, *tier, *idx, *n, *seed, *deadline, *after, *replay, *region, *until)
 		return
 	}
 	self, _ := os.Executable()
@@ -89,9 +101,22 @@ func main() {
 		if p.Replay != nil {
 			os.Exit(p.Replay(env, rec.Violation))
 		}
+		if p.Pre != nil {
+			env.Workers = runtime.NumCPU()
+			if err := p.Pre(env); err != nil {
+				fmt.Println("pre:", err)
+				os.Exit(2)
+			}
+		}
 		fails := 0
 		for rep := 0; rep < 2; rep++ {
-			keys, status := explore.Replay(env, rec.Violation)
+			var keys map[string]*explore.Violation
+			var status string
+			if rec.Violation.Context {
+				keys, status = explore.ContextReplay(env, rec.Violation)
+			} else {
+				keys, status = explore.Replay(env, rec.Violation)
+			}
 			fmt.Printf("replay %d: status=%s\n", rep+1, status)
 			for k, v := range keys {
 				fmt.Printf("  key=%q\n  program: %s\n  input: %s\n  expected: %s\n  observed: %s\n  %s\n", k, v.Detail.Program, v.Detail.Input, v.Detail.Expected, v.Detail.Observed, v.Detail.Note)
@@ -136,6 +161,12 @@ func main() {
 		Deadline: start.Add(time.Duration(*budget) * time.Second)}
 	os.MkdirAll(filepath.Join(*root, ".work"), 0o755)
 	var res *explore.Result
+	if p.Pre != nil {
+		if err := p.Pre(env); err != nil {
+			fmt.Printf("HARNESS-ERROR property=%s pre: %v\n", *prop, err)
+			os.Exit(2)
+		}
+	}
 	if p.Custom != nil {
 		res = p.Custom(env)
 	} else {
